@@ -1,0 +1,30 @@
+//go:build verif
+
+// Contracts for package resprot, read by the verifier in /verif (build tag verif).
+// Comment-only file; see /verif/DESIGN.md section 3 for the syntax.
+
+package resprot
+
+//@ props C18
+//@ # (the spec function ws is declared in store/zz_contracts_verif.go; spec functions are global)
+//@ func MarshalDataValue(v interface{}) (out []byte, err error)
+//@   modifies alloc, bytes
+//@   ghost exit :: assert wrap: imp(isNil(err) && (data[0] == '[' || data[0] == '{'), len(out) == len(data) + 9 && bytes(out)[0:8] == "{\"data\":" && bytes(out)[8:8+len(data)] == bytes(data) && bytes(out)[len(out)-1] == '}')
+//@   ghost exit :: assert plain: imp(isNil(err) && !(data[0] == '[' || data[0] == '{'), same(out, data))
+//@
+//@ func UnmarshalDataValue(data []byte, v interface{}) (err error)
+//@   modifies all
+//@   ensures blank: imp(forall(k, 0, len(old(data)), ws(old(data[k]))), same(err, errUnexpectedEnd))
+//@   loop 1 invariant 0 <= i && i <= len(data) && same(data, old(data)) && forall(k, 0, i, ws(data[k])) && unchanged("bytes")
+//@
+//@ func (r Response) HasError() (res bool)
+//@   ensures res == (r.Error != nil)
+//@ func (r Response) HasResource() (res bool)
+//@   ensures res == (r.Error == nil && len(r.Resource) != 0)
+//@ func (r Response) HasResult() (res bool)
+//@   ensures res == (r.Error == nil && len(r.Resource) == 0)
+//@ # exactly one of the three classifications holds for every Response value
+//@ func ParseResponse(data []byte) (r Response)
+//@   modifies all
+//@   ensures classified: r.Error != nil || len(r.Resource) != 0 || ref(r.Result) != 0
+//@   ensures empty: imp(len(data) == 0, r.Error != nil && r.Error.Code == "system.internalError")
